@@ -260,6 +260,16 @@ def check_walker(fn, what, kind, bad):
     # the visited set only grows: an object stays "seen" for the whole walk (a later occurrence of a
     # shared object - also after its first expansion has finished - is not expanded again)
     all_vis = {e[2] for bp in body for e in bp.events() if e[1] == 'call:add'}
+    # the visited set belongs to one walk: created by this call, not handed in and not a default argument (which is
+    # created once per module - every later walk would find the objects of the earlier ones "already seen")
+    params_ = {a.arg for a in fn.args.args + fn.args.kwonlyargs}
+    for v in all_vis:
+        nm = v[1] if isinstance(v, tuple) and len(v) > 1 and isinstance(v[1], str) else None
+        if (isinstance(v, tuple) and v[:1] == ('PARAM',)) or (nm in params_):
+            bad('C15-dedup', f'{what}: the visited set `{nm}` is a parameter of the walker'
+                             + (' with a default created once per module' if fn.args.defaults or fn.args.kw_defaults else '')
+                             + ': it outlives the walk, so a later walk skips what an earlier one has seen (and ids of '
+                               'freed objects are reused)')
     shrink = ('call:discard', 'call:remove', 'call:pop', 'call:clear', 'call:difference_update',
               'call:intersection_update', 'call:symmetric_difference_update', 'call:__delitem__')
     for bp in body:
